@@ -117,12 +117,27 @@ def r3(ctx):
         # unpacking of the helper's result
         unpack = [st for st in f.body if isinstance(st, ast.Assign) and isinstance(st.targets[0], ast.Tuple)
                   and isinstance(st.value, ast.Call) and (dotted(st.value.func) or '').endswith('coordinate_to_sliding_bin_locations')]
-        if len(unpack) != 1 or len(unpack[0].targets[0].elts) != 4:
-            raise AnalysisError('coordinate_to_bins: result of coordinate_to_sliding_bin_locations is not unpacked into 4 names')
-        call = unpack[0].value
+        if len(unpack) == 1 and len(unpack[0].targets[0].elts) == 4:
+            call = unpack[0].value
+            names = [src(e) for e in unpack[0].targets[0].elts]
+            first_name, last_name = names[2], names[3]
+        else:
+            # the result is bound to one name and its elements are read by index
+            whole = [st for st in f.body if isinstance(st, ast.Assign) and len(st.targets) == 1 and isinstance(st.targets[0], ast.Name)
+                     and isinstance(st.value, ast.Call) and (dotted(st.value.func) or '').endswith('coordinate_to_sliding_bin_locations')]
+            if len(whole) != 1:
+                raise AnalysisError('coordinate_to_bins: result of coordinate_to_sliding_bin_locations is not bound')
+            call = whole[0].value
+            res_name = whole[0].targets[0].id
+            picked = {}
+            for st in f.body:
+                if isinstance(st, ast.Assign) and len(st.targets) == 1 and isinstance(st.targets[0], ast.Name) and isinstance(st.value, ast.Subscript) \
+                        and src(st.value.value) == res_name and isinstance(st.value.slice, ast.Constant):
+                    picked[st.value.slice.value] = st.targets[0].id
+            if 2 not in picked or 3 not in picked:
+                raise AnalysisError('coordinate_to_bins: first / last index (elements 2 and 3 of the helper result) are not read')
+            first_name, last_name = picked[2], picked[3]
         okargs = [src(a) for a in call.args] == [point, b, s]
-        names = [src(e) for e in unpack[0].targets[0].elts]
-        first_name, last_name = names[2], names[3]
         ret = [st for st in walk_no_nested(f) if isinstance(st, ast.Return)]
         comp = ret[0].value if ret else None
         if not isinstance(comp, (ast.ListComp, ast.GeneratorExp)) or len(comp.generators) != 1:
